@@ -1157,20 +1157,39 @@ def range_fields(t, prof, fctx=None):
     return out
 
 
-def lang_case(ctx, rng, W):
+def degenerate_range_tree(rng, W):
+    """A range whose two bounds are the same existing word, with every bracket combination: [x TO x] selects the
+    documents holding x, the half-open and open forms select nothing. Alone or OR-ed with a term (never inside an
+    AND: an empty clause inside a conjunction is C15's listed normalize behaviour)."""
+    fld = rng.choice(["t", "t", "t2", "k"])
+    vocab = KVOCAB if fld == "k" else VOCAB
+    x = rng.choice([w for w in vocab if w != "to"] or ["alfa"])
+    rg = ("range", fld, x, x, rng.random() < 0.5, rng.random() < 0.5, "TO")
+    r = rng.random()
+    if r < 0.4:
+        return rg
+    other = ("term", fld, rng.choice(vocab))
+    return ("or", (rg, other) if r < 0.7 else (other, rg))
+
+
+def lang_case(ctx, rng, W, tree=None):
     names = [n for n, (_p, prof) in W.parsers.items() if prof and not prof.get("simple")]
     name = rng.choice(names)
     parser, prof = W.parsers[name]
     popB = rng.random() < 0.06
     depth = rng.choice([1, 1, 2, 2, 2, 3, 3, 4])
-    for _attempt in range(20):
+    if tree is not None:
+        popB = False
+        ctx.count("lang.degenerate_ranges")
+    for _attempt in range(20 if tree is None else 0):
         st = {"rangefields": set(), "popB": popB}
         tree = gen_tree(rng, prof, depth, st)
         rf = range_fields(tree, prof)
         if popB or len(rf) == len(set(rf)):
             break       # population A: at most one range per effective field (see ASSUMPTIONS)
     else:
-        tree = ("term", None, "alfa")
+        if tree is None:
+            tree = ("term", None, "alfa")
     ctx.count("lang.cases")
     ctx.count("lang.popB" if popB else "lang.popA")
     ctx.count("lang.config." + name)
@@ -1328,8 +1347,10 @@ def run(ctx):
             r = rng.random()
             if r < 0.42:
                 shape, nontrivial, w = soup_case(ctx, rng, W)
-            elif r < 0.93:
+            elif r < 0.90:
                 shape, nontrivial, w = lang_case(ctx, rng, W)
+            elif r < 0.93:
+                shape, nontrivial, w = lang_case(ctx, rng, W, tree=degenerate_range_tree(rng, W))
             else:
                 shape, nontrivial, w = simple_case(ctx, rng, W)
             ctx.case(shape, nontrivial, sample=w if (idx % 211 == 0) else None)
